@@ -41,4 +41,10 @@ def r_parent_links(run, tree):
     cf.check_dataset_histories(run, tree)
 
 
-RULES = [r1_fold, r_conversion, r_parent_links]
+def r_norm_corners(run, tree):
+    run.rule("C16.R7", "the distance to the origin is a Vector norm: a row lying exactly on the origin has distance 0 and is inside every sphere (shared with C09.R9)", "D7 fold of Vector.norm over small concrete vectors", "", floor=4)
+    from . import quantity_stack as qs
+    qs.check_norm_corner_cases(run, tree)
+
+
+RULES = [r1_fold, r_conversion, r_parent_links, r_norm_corners]
